@@ -15,6 +15,7 @@ import (
 	"pgregory.net/rapid"
 
 	"verif/harness/ev"
+	"verif/harness/spsim"
 	"verif/harness/world"
 )
 
@@ -148,3 +149,51 @@ func TestC06(t *testing.T) {
 }
 
 var _ = world.Absent
+
+// TestC06Matrix: every defect of the catalogue on its own, in both bindings, in an otherwise acceptable request of a provider
+// that is asked for no signature - the one place where each validity condition alone decides. Deterministic and complete over
+// (defect x binding x with / without the optional parts the defect lives in); the random search above mixes defects,
+// configurations and styles around it.
+func TestC06Matrix(t *testing.T) {
+	col := ev.For("C06", "exploration", c06Rule)
+	runPlain(t, col, "TestC06", func(fail func(*ev.Violation, any)) {
+		n := 0
+		for _, d := range c06Catalogue {
+			for _, binding := range []string{"post", "redirect"} {
+				for _, full := range []bool{false, true} {
+					spec := stdSpec()
+					c := SSOCase{Spec: spec, Host: defHost, SP: 0, Style: plainStyle, Tr: spsim.Transport{Binding: binding, Plus: true, Encoding: A, RelayState: "rs"}}
+					c.Req = spsim.NewAuthnReq(fmt.Sprintf("_matrix-%d", n), spec.SPs[0].EntityID)
+					c.Req.IssueInstant = spsim.Rel(-5, 0, "")
+					if full {
+						c.Req.Destination = spec.IdP.Advertised("sso", defHost)
+						c.Req.Conditions = &spsim.Conditions{NotBefore: spsim.Rel(-60, 0, ""), NotOnOrAfter: spsim.Rel(300, 0, "")}
+					}
+					if d.Name == "bad-deflate" && binding != "redirect" {
+						continue
+					}
+					c.Defects = []Defect{d}
+					applyModelDefect(&c, d, defHost)
+					r, err := runSSO(c)
+					if err != nil {
+						panic("harness: " + err.Error())
+					}
+					n++
+					okCalls, _ := createCalls(r.W)
+					accepted := len(okCalls) > 0
+					recognised := len(r.Sent.Violated) > 0
+					if assertedDefect(d) && !recognised && len(r.Sent.Ambiguous) == 0 && full {
+						panic(fmt.Sprintf("harness: defect %v (%s) injected but the evaluator finds the message valid: %s", d, binding, short(string(r.Sent.XML), 300)))
+					}
+					col.Case(recognised, ev.Fingerprint("matrix", d.Name, d.Param, binding, full), []string{"matrix", fmt.Sprintf("matrix/recognised=%v/accepted=%v", recognised, accepted), "matrix/defect/" + d.Name}, func() any {
+						return map[string]any{"defect": d, "binding": binding, "optional_parts": full, "violated": r.Sent.Violated, "accepted": accepted, "status": r.Rep.Status}
+					})
+					for _, v := range c06Oracle(c, r) {
+						fail(v, c)
+					}
+				}
+			}
+		}
+		col.SetExtra("single_defect_matrix_cases", n)
+	})
+}
